@@ -65,6 +65,7 @@ func mkPredicate(key string, log *[]cbCall, pass bool, ret error) interface{} {
 }
 
 type c14Case struct {
+	PredErr   bool        `json:"predicate_returns_error,omitempty"`
 	Resolver  string      `json:"resolver"`
 	Value     string      `json:"value_type"`
 	TypeField interface{} `json:"type_field,omitempty"`
@@ -141,6 +142,9 @@ func c14Exec(r *verdict.Run, cs c14Case) {
 		}
 		var plog []cbCall
 		perr := error(nil)
+		if cs.PredErr {
+			perr = fmt.Errorf("predicate-sentinel-%s", cs.Predicate)
+		}
 		pred := mkPredicate(cs.Predicate, &plog, cs.Pass, perr)
 		res, cerr := streams.NewTypePredicatedResolver(del, pred)
 		if cerr != nil {
@@ -169,6 +173,18 @@ func c14Exec(r *verdict.Run, cs c14Case) {
 			if predMatch || cs.Pass {
 				r.NonTrivial(jstr(cs))
 			}
+			return
+		}
+		if cs.PredErr {
+			// the predicate is the matching callback: its error comes back
+			// unchanged and nothing else is invoked
+			if aerr != perr {
+				viol("predicate-error-not-passed-through", fmt.Sprintf("Apply returned err=%v, the predicate returned %v", aerr, perr))
+			}
+			if len(log) != 0 {
+				viol("delegate-called-after-predicate-error", fmt.Sprintf("%d delegate callbacks invoked although the predicate returned an error", len(log)))
+			}
+			r.NonTrivial(jstr(cs))
 			return
 		}
 		if !cs.Pass {
@@ -249,6 +265,8 @@ func runC14(id string) int {
 			c14Exec(r, c14Case{Resolver: "TypePredicatedResolver", Value: v, Predicate: c, Pass: true, Callbacks: []string{v}})
 			if v == c {
 				c14Exec(r, c14Case{Resolver: "TypePredicatedResolver", Value: v, Predicate: c, Pass: false, Callbacks: []string{v}})
+				c14Exec(r, c14Case{Resolver: "TypePredicatedResolver", Value: v, Predicate: c, Pass: true, PredErr: true, Callbacks: []string{v}})
+				c14Exec(r, c14Case{Resolver: "TypePredicatedResolver", Value: v, Predicate: c, Pass: false, PredErr: true, Callbacks: []string{v}})
 			}
 		}
 	}
@@ -299,6 +317,7 @@ func runC14(id string) int {
 		if cs.Resolver == "TypePredicatedResolver" {
 			cs.Predicate = pool[g.Intn(len(pool))]
 			cs.Pass = g.Bool()
+			cs.PredErr = g.Chance(1, 4)
 		}
 		if cs.Resolver == "JSONResolver" && g.Chance(1, 4) {
 			// multi-valued type array: own type is the first element the
